@@ -14,7 +14,7 @@ RULE = ('each event is P*k or k*P for P = [d]G in one of the representations (z=
 
 def cases(tier, seed):
     out = []
-    n = 160 if tier == 'quick' else 15000
+    n = 400 if tier == 'quick' else 15000
     for i in range(n):
         for which in (1, 2):
             out.append((which, 'mix', i))
